@@ -2,6 +2,7 @@ package vrt
 
 import (
 	"fmt"
+	"hash/maphash"
 	"reflect"
 	"runtime"
 	"sort"
@@ -107,3 +108,79 @@ func SetFinalizer(obj, finalizer any) {
 		runtime.SetFinalizer(obj, finalizer)
 	}
 }
+
+// SortAny orders a list of keys of arbitrary dynamic types deterministically (the order sync.Map.Range
+// uses under the scheduler): by dynamic type name, then integers and strings by value, object identities
+// (channels, pointers) by creation number (see NoteObj), everything else by its printed form.
+func SortAny(keys []any) {
+	rank := map[unsafe.Pointer]int{}
+	for i, p := range notedList() {
+		if _, ok := rank[p]; !ok {
+			rank[p] = i + 1
+		}
+	}
+	type sk struct {
+		typ  string
+		kind int
+		i    int64
+		s    string
+	}
+	key := func(k any) sk {
+		if k == nil {
+			return sk{}
+		}
+		v := reflect.ValueOf(k)
+		out := sk{typ: v.Type().String()}
+		switch v.Kind() {
+		case reflect.Int, reflect.Int8, reflect.Int16, reflect.Int32, reflect.Int64:
+			out.kind, out.i = 1, v.Int()
+		case reflect.Uint, reflect.Uint8, reflect.Uint16, reflect.Uint32, reflect.Uint64, reflect.Uintptr:
+			out.kind, out.i = 1, int64(v.Uint())
+		case reflect.String:
+			out.kind, out.s = 2, v.String()
+		case reflect.Chan, reflect.Ptr, reflect.UnsafePointer:
+			p := v.UnsafePointer()
+			if r, ok := rank[p]; ok {
+				out.kind, out.i = 3, int64(r)
+			} else {
+				out.kind, out.i = 4, int64(uintptr(p))
+			}
+		default:
+			out.kind, out.s = 5, fmt.Sprint(k)
+		}
+		return out
+	}
+	ks := make([]sk, len(keys))
+	for i, k := range keys {
+		ks[i] = key(k)
+	}
+	idx := make([]int, len(keys))
+	for i := range idx {
+		idx[i] = i
+	}
+	sort.SliceStable(idx, func(a, b int) bool {
+		x, y := ks[idx[a]], ks[idx[b]]
+		if x.typ != y.typ {
+			return x.typ < y.typ
+		}
+		if x.kind != y.kind {
+			return x.kind < y.kind
+		}
+		if x.i != y.i {
+			return x.i < y.i
+		}
+		return x.s < y.s
+	})
+	out := make([]any, len(keys))
+	for i, j := range idx {
+		out[i] = keys[j]
+	}
+	copy(keys, out)
+}
+
+// MakeSeed is the rewritten maphash.MakeSeed: one seed per process (package-level initialisers are
+// re-run before every execution; a fresh random seed each time would make schedules unrepeatable, and
+// code cannot rely on two seeds being different).
+func MakeSeed() maphash.Seed { return processSeed }
+
+var processSeed = maphash.MakeSeed()
